@@ -348,6 +348,16 @@ fn main() {
                 }
             }
         });
+        // circles up to 2100 px (full band test, equals the ellipse with equal axes): an approximate
+        // square root in the scanline code is exact for small operands (seeded `C18-13`: Newton capped at
+        // 3 steps, first wrong at diameter 924; `C06-13`: capped at 4 steps, first wrong at 732)
+        let ncirc = run.tier(40u64, 1600u64);
+        run.generate("circles-up-to-2100", ncirc, false, 0.2, |ctx, idx, rng| {
+            const D: [u32; 12] = [731, 732, 733, 923, 924, 925, 1001, 1023, 1024, 1025, 2047, 2048];
+            let d = if idx < 12 { D[idx as usize] } else if rng.chance(1, 2) { rng.u32r(514, 1100) } else { rng.u32r(1100, 2100) };
+            check_circle(ctx, pos(rng), d);
+            ctx.count("circles_beyond_513_px", 1);
+        });
         let emax = run.tier(32u64, 100u64);
         run.generate("ellipses", (emax + 1) * (emax + 1), true, 0.25, |ctx, idx, rng| check_ellipse(ctx, pos(rng), (idx % (emax + 1)) as u32, (idx / (emax + 1)) as u32));
         run.generate("rounded-equal-radii", 13 * 13 * 8 * 8, true, 0.2, |ctx, idx, rng| {
